@@ -4,7 +4,7 @@
    page table of the hierarchy is shown per call (the slot is the one the walk reached) but
    the global statement over histories, and all of it for the recursive mapper's addresses, is
    covered by the correspondence check (memory checksums of every data frame), not a theorem. *)
-From X86 Require Import Paging.Mapped Paging.MemProofs Paging.Tree Paging.TreeProofs.
+From X86 Require Import Paging.Mapped Paging.MemProofs Paging.Tree Paging.TreeProofs Paging.Refine.
 Open Scope Z_scope.
 
 Theorem C09_new_table_completely_zeroed : forall s slot pf s' t i,
@@ -63,3 +63,20 @@ Theorem C09_update_flags_footprint : forall s k page flags,
   end.
 Proof. exact update_flags_footprint. Qed.
 Print Assumptions C09_update_flags_footprint.
+
+(* map_to (MappedPageTable / OffsetPageTable memory model) writes only inside the level-4 table,
+   the page tables of the hierarchy and frames it obtained from the allocator: every other word
+   of physical memory -- mapped data frames included -- reads the same afterwards *)
+Theorem C09_map_to_writes_only_table_and_allocator_frames : forall s ch k page frame flags pf,
+  0 <= k <= 2 ->
+  rep 4 s ch (root s) -> tframe (root s) -> sep s (root s) ch -> pflags_ok pf ->
+  leaf_ok (Z.to_nat (k + 1)) (leaf_word k frame flags) ->
+  exists s' o, map_to s k page frame flags pf = Ok (s', o) /\
+    forall a, 0 <= a -> ~ in_frames (root s :: frames_of ch ++ va s) a -> rd s' a = rd s a.
+Proof.
+  intros s ch k page frame flags pf Hk Hrep Ht Hsep Hpf Hw.
+  destruct (map_to_refines s ch k page frame flags pf Hk Hrep Ht Hsep Hpf Hw)
+    as (s' & o & ch' & a' & r & Hm & _ & _ & _ & _ & _ & _ & _ & Hfr).
+  exists s', o. split; [exact Hm|exact Hfr].
+Qed.
+Print Assumptions C09_map_to_writes_only_table_and_allocator_frames.
